@@ -101,8 +101,13 @@ def run(ctx):
         return res
     rng = vlib.mkrng(seed, prop)
     bases = []
+    replay_set = None
     if ctx.get("replay"):
-        bases.append(json.load(open(ctx["replay"]))["file"])
+        rp = json.load(open(ctx["replay"]))
+        if "file" in rp:
+            bases.append(rp["file"])
+        else:
+            replay_set = rp.get("fileset")
     else:
         for k in range(n):
             fs, _ = gen.gen_fileset(rng, nfiles=1, allow_obj_struct=(k % 2 == 0))
@@ -214,6 +219,48 @@ def run(ctx):
 
     with ThreadPoolExecutor(max_workers=vlib.NCPU) as ex:
         results = dict(ex.map(one, range(len(bases))))
+    # --no-typed-objects on file sets with includes (inheritance, constants and object types that
+    # come from included files): still nothing but the spelling of object types may change
+    def untyped_set(m):
+        r = vlib.mkrng(seed, "%s-set-%d" % (prop, m))
+        if replay_set is not None:
+            fs = replay_set
+        else:
+            fs, _ = gen.gen_fileset(r, nfiles=r.choice([2, 3]), allow_obj_struct=(m % 2 == 0))
+        root = os.path.join(work, "sets", str(m))
+        gen.write_fileset(fs, root)
+        ifnames = {dcl[1] for f in fs["files"] for dcl in f["decls"] if dcl[0] == "iface"}
+        ud = []
+        for f in fs["files"]:
+            src = os.path.join(root, f["path"])
+            stem = os.path.splitext(os.path.basename(f["path"]))[0]
+            ty = compile_all(ctx["idlc"], src, os.path.join(root, "typed_" + stem), [])
+            un = compile_all(ctx["idlc"], src, os.path.join(root, "untyped_" + stem), ["--no-typed-objects"])
+            for tag in ty:
+                if (ty[tag][0] == 0) != (un[tag][0] == 0):
+                    ud.append((tag, "%s: exit status differs with --no-typed-objects" % f["path"])); continue
+                if ty[tag][0] != 0:
+                    continue
+                for fn, base in ty[tag][1].items():
+                    other = un[tag][1].get(fn, "")
+                    if tag in ("c", "c_skel"):
+                        base2 = re.sub(r"(?m)^typedef Object \w+;$", "", base)
+                        ta2 = tokens(re.sub(r"\bconst (\w+ \(\*)", r"\1", base2))
+                        tb2 = tokens(re.sub(r"\bconst (\w+ \(\*)", r"\1", other))
+                        if len(ta2) != len(tb2) or any(x != y and not (y == "Object" and x in ifnames) for x, y in zip(ta2, tb2)):
+                            ud.append((tag, "%s -> %s: differs by more than object type spellings" % (f["path"], fn)))
+                    elif base != other:
+                        ud.append((tag, "%s -> %s: --no-typed-objects changed a non-C backend" % (f["path"], fn)))
+        return m, (fs, ud)
+
+    nsets = 6 if tier == "quick" else 120
+    with ThreadPoolExecutor(max_workers=vlib.NCPU) as ex:
+        set_results = dict(ex.map(untyped_set, range(nsets if not ctx.get("replay") else (1 if replay_set is not None else 0))))
+    for m, (fs, ud) in set_results.items():
+        if ud:
+            res["failures"].append({"property": prop, "fileset": fs, "variant": "untyped (file set with includes)",
+                                    "text": {f["path"]: gen.render_file(f) for f in fs["files"]},
+                                    "what": "--no-typed-objects changes more than the spelling of object types: %s" % (ud[0],)})
     # PST model on the trees of the trivia variants
     lines, tree_jobs = [], []
     for k, out in results.items():
